@@ -30,6 +30,20 @@ CHECKS = {
         "(tied by correspondence); Gen/EvalMeta.lean (type identifiers / data-characteristics kinds probed from live state types), Gen/StateTypes.lean (MIMETYPES); the command version hash "
         "is opaque (flag only); kept-copy agreement is checked on the implementation only; known finding: a query without any action has no status."),
  ),
+ "C12": dict(
+  text=("Theorems in Props/C12.lean over the concurrency model (Conc.lean: threads = the evaluator run against an answer oracle, EvalO.lean, generated from Eval.lean; any thread may move; "
+        "Reach = reflexive-transitive closure of StepAny, i.e. ALL schedules of any length and any number of threads): oracle_refines (a thread that received good answers writes only good "
+        "data and returns the reference value), reach_preserves_inv, cache_sound_every_schedule / cache_values_fresh (every data entry of every reachable shared cache is the fresh value of its key), "
+        "result_is_solo / result_is_sequential (every finished thread returns the reference interpretation's observation = what it returns alone), answers_are_finished / never_serves_unfinished / "
+        "metadata_only_is_miss (a key whose producer has only written metadata, even 'ready', is a miss), evalQO_agrees (the oracle evaluator fed a cache's own answers is the sequential evaluator). "
+        "Correspondence: real threads under a deterministic scheduler (yield before every get/store/remove of the shared cache; progress-metadata writes run with the operation before them) replay seeded "
+        "schedules with up to 3 (thorough 5) pre-emptions on MemoryCache, FileCache, StoreCache(MemoryStore); per-thread outcome, call log, sequence of pre-emption points and final cache vs the model; "
+        "oracle: every thread returns its solo NoCache result and every value left in the cache equals a fresh evaluation. Partial: pre-emption inside one cache operation (between the file operations "
+        "of a file-backed cache, between byte codes) is below the model's atomicity - the file-step protocol of FileCache is covered by C16's theorems for every cut point."),
+  note=("Trusted: Lean kernel; the evaluator model (as C01/C04) and its mechanical oracle-world translation EvalO.lean (harness/gen_evalo.py --check on every run); Conc.lean's atomicity: one cache operation "
+        "is one step, Python threads are sequentially consistent at that granularity; the harness scheduler (semaphores, one runnable thread at a time); hypotheses Closed/CanonOK as in C04 (C02 round trip); "
+        "known finding rtq-ambiguous-text shared with C04."),
+ ),
  "C03": dict(
   text=("Lean theorems for every finite string of Unicode scalar values and every escape table satisfying the decidable side condition "
         "tableOK (re-proved by `decide` for the table regenerated from ESCAPE_SEQUENCES on each run); the executable model of "
